@@ -24,6 +24,10 @@ RowCount(m, i) == Cardinality({j \in 0..(C - 1) : Bit(m, i * C + j)})
 OrdsOf(m, i) == IF ORD = "all" THEN 0..(Fact(RowCount(m, i)) - 1)
                 ELSE IF RowCount(m, i) <= 1 THEN {0} ELSE {0, Fact(RowCount(m, i)) - 1}
 
+\* all choices of one order index per row (built row by row: enumerating [1..R -> 0..C!-1] and filtering is far too slow)
+RECURSIVE OrdSeqs(_, _)
+OrdSeqs(m, n) == IF n = 0 THEN {<<>>} ELSE {Append(f, o) : f \in OrdSeqs(m, n - 1), o \in OrdsOf(m, n - 1)}
+
 \* the source matrix: pattern `mask`, row i listed in its ord[i]-th order
 A == FromRows(R, C, [i \in 1..R |-> NthPerm(PatRow(R, C, mask, 0, FALSE, i - 1), ord[i])])
 Sorted0 == MkCrs(R, C, mask, 0, FALSE)
@@ -31,7 +35,7 @@ Perm == NthPerm([i \in 1..R |-> i - 1], pi)          \* a permutation of 0..R-1
 Scale == [i \in 1..R |-> IF i % 2 = 1 THEN 2 ELSE -1]
 
 Init == /\ mask \in {m \in Masks(R, C) : m % SAMPLE = 0}
-        /\ ord \in [1..R -> 0..(Fact(C) - 1)] /\ \A i \in 1..R : ord[i] \in OrdsOf(mask, i - 1)
+        /\ ord \in OrdSeqs(mask, R)
         /\ pi = 0
         /\ pc = "in" /\ out = <<>>
 
